@@ -73,3 +73,31 @@ Proof.
   exact (V.Model.ExtractPath.region_consistent hd rname Hne h lvl blocks entries ex rk h' Hx Hf HG Hl).
 Qed.
 Print Assumptions C04_region_extraction_consistent.
+
+(* every edit that works on the dictionary of ONE level and is written back into the hierarchy - the loop
+   rotation with one or several headers, the early return, the insertion of a block in front of one successor
+   (Model/LoopHier.v, Model/InsHier.v) - keeps a self-consistent hierarchy self-consistent, provided the new
+   dictionary keeps the level's children, adds only unused names, leaves region blocks as they are, keeps every
+   arc inside the level (the exiting block's may leave as the region's own do) and keeps the exiting block's
+   outgoing targets (Model/LevelWf.v; all eight clauses of WfHier).  The conditions are one boolean
+   (LevelWfRun.level_okb), evaluated with wf_check of the hierarchy before the call on every call of
+   loop_restructure_helper and insert_block the pipeline makes. *)
+From V Require Import Model.Edits Model.LoopHier Model.LevelWf Model.LevelWfRun.
+Theorem C04_level_edit_keeps_hierarchy_consistent_b :
+  forall h lvl g', wf_check h = true -> level_okb h lvl g' = true -> WfHier (write_back h lvl g').
+Proof. exact level_edit_keeps_wf_b. Qed.
+Print Assumptions C04_level_edit_keeps_hierarchy_consistent_b.
+
+(* non-vacuity: the self loop 6 of the outermost level rotated (assignment blocks 30 31, latch 40) *)
+Local Open Scope Z_scope.
+Example C04_level_edit_example :
+  let h := [ mkNode 1 0 [] [] (KRegion 1 0 0 [5; 6; 7] 0 true);
+             mkNode 5 1 [6] [] (KOrig 1);
+             mkNode 6 1 [6; 7] [] (KOrig 1);
+             mkNode 7 1 [] [] (KOrig 1) ] in
+  let g' := [ (5, mkE [6] [] (EPlain 100)); (7, mkE [] [] (EPlain 100));
+              (30, mkE [40] [] (EAssign [(9, 0)])); (31, mkE [40] [] (EAssign [(9, 1)]));
+              (6, mkE [30; 31] [] (EPlain 100));
+              (40, mkE [7; 6] [6] (EBranch 12 9 [(0, 6); (1, 7)])) ] in
+  wf_check h = true /\ level_okb h 1 g' = true.
+Proof. vm_compute. split; reflexivity. Qed.
